@@ -63,6 +63,16 @@ pub const CORPUS: &[&str] = &[
     "def f():\n    a\n    return a\n    pass\n    b\n    return\n",
 ];
 
+/// Sources whose only syntax errors are MISSING (anonymous) tokens: no ERROR node anywhere.
+pub const MISSING_ONLY: &[&str] = &[
+    "def f(:\n  pass\n",
+    "def g(:\n  return 1\n",
+    "class A:\n  def m(:\n    pass\n",
+    "x = 1\ndef f(:\n  pass\ny = 2\n",
+    "def é(:\n  pass\n",
+    "def f(:\n  pass\ndef g(:\n  pass\n",
+];
+
 /// Larger files that contain every construct the query pool looks for.
 pub const RICH: &[&str] = &[
     "import os.path, sys\nfrom a.b import c, d.e\n\nclass Foo:\n    def bar(self, x, y):\n        z = x.y.z\n        if z:\n            return foo(z, 1)\n        elif y:\n            pass\n        else:\n            print z\n        return\n\n    def baz(self):\n        pass\n\ndef main(a, b):\n    for i in [a, b, 3]:\n        while i:\n            i = g(i).h\n    s = \"str\" + 'é'\n    return s\n\nmain(1, x)\na\nb.c\npass\n",
